@@ -64,7 +64,7 @@ let n = n_of_int
 let i = int_of_n
 let rec nat_of_int k = if k <= 0 then Datatypes.O else Datatypes.S (nat_of_int (k - 1))
 let sb (p, x) = Printf.sprintf "%d.%d" (i p) (i x)
-let sbl l = "[" ^ String.concat " " (L.map sb l) ^ "]"
+let sbl l = "[" ^ String.concat " " (L.map sb (L.filteri (fun k _ -> k < 12) l)) ^ (if L.length l > 12 then " ..+" ^ string_of_int (L.length l - 12) else "") ^ "]"
 let sflag f = string_of_int (i (flag_num f))
 let sopt = function None -> "-" | Some h -> string_of_int (i h)
 
@@ -521,10 +521,21 @@ let lockstep records mismatches =
     if good = [] then (match !cands with c :: _ -> fail (Printf.sprintf "inv_b part %d fails in every candidate state" (i (inv_fail c))) | [] -> ())
     else cands := good in
   let apply_op (c : cfg) (t : coq_N) (o : op) : cfg list = match cstep c t (COp o) with ROk (c', _) -> [c'] | _ -> [] in
+  (* a hand-off is a ghost move between the programs: it does not depend on what the allocator is doing *)
+  let give (c : cfg) (t : coq_N) (b : bid) (t' : coq_N) : cfg list =
+    let th = gett c t in
+    if not (mem_bid b th.th_held) then [] else
+    let c1 = sett c t { th with th_held = remove_bid b th.th_held } in
+    let th' = gett c1 t' in
+    [sett c1 t' { th' with th_held = b :: th'.th_held }] in
+  let dirty = ref false in
   (try
     while true do
       let line = input_line stdin in
       incr lineno;
+      (match split_ws line with
+       | ("G" | "B" | "H" | "P") :: _ -> ()
+       | _ -> if !dirty then begin dirty := false; check_inv () end);
       match split_ws line with
       | [] -> ()
       | w :: _ when String.length w > 0 && w.[0] = '#' -> ()
@@ -559,7 +570,7 @@ let lockstep records mismatches =
           if not pg.pg_alive then [setp c p snap]
           else if pg.pg_flag = snap.pg_flag && pg.pg_tf = snap.pg_tf && pg.pg_heap = snap.pg_heap && pg.pg_tid = snap.pg_tid
           then [setp c p snap] else []) "page snapshot: the shared part (flag / thread-free list / heap) differs from the model";
-        check_inv ()
+        dirty := true
       | ["B"; t; b] ->
         incr records;
         let t = n (int_of_string t) and b = parse_block b in
@@ -574,7 +585,7 @@ let lockstep records mismatches =
            let b = parse_block b in
            update (fun c -> apply_op c t (OpFree (b, false)) @ apply_op c t (OpFree (b, true))) "free of a block the model thread does not hold / thread not idle"
          | ["give"; b; t'] ->
-           update (fun c -> apply_op c t (OpGive (parse_block b, n (int_of_string t')))) "give"
+           update (fun c -> give c t (parse_block b) (n (int_of_string t'))) "give: the giving thread does not hold the block"
          | ["newheap"; h] -> update (fun c -> apply_op c t (OpHeapNew (n (int_of_string h)))) "newheap"
          | ["delete"; h] -> update (fun c -> apply_op c t (OpHeapDelete (n (int_of_string h)))) "delete: not enabled in the model"
          | ["op"; "Pop"; p] -> update (fun c -> apply_op c t (OpPop (n (int_of_string p)))) "Pop"
@@ -622,6 +633,7 @@ let lockstep records mismatches =
       | _ -> ()
     done
   with End_of_file -> ());
+  if !dirty then check_inv ();
   Printf.printf "STAT tfree-lockstep lines=%d atomic_steps=%d inv_b_checks=%d max_state_set=%d final_state_set=%d\n"
     !lineno !steps !inv_checked !maxset (L.length !cands)
 
